@@ -24,7 +24,7 @@ ASSUMPTIONS = ["align=True / unequal-length seqlogos shell out to mafft-linsi (n
 EXHAUSTIVE = {"quick": ["rankfrequency: all 4 normalisation flag combinations x 2 scale settings on fixed witnesses"],
               "thorough": ["rankfrequency: all 4 flag combinations x 3 scale settings x log flags on fixed witnesses",
                            "regex: every multiset of 1..3 sequences of length 2 over AC"]}
-REQUIRE = {"regex_cases": 9, "regex_members_checked": 500, "regex_nonmembers_checked": 500, "regex_gapped_cases": 2, "consensus_cases": 7,
+REQUIRE = {"regex_cases": 9, "regex_members_checked": 500, "regex_nonmembers_checked": 500, "regex_gapped_cases": 2, "regex_every_column_gapped": 3, "consensus_cases": 7,
            "seqlogos_cases": 2, "rankfrequency_cases": 9, "rankfrequency_with_missing": 5, "label_color_cases": 10, "label_rare_black_checked": 8,
            "density_scatter_cases": 5, "clustermap_cases": 4, "clustermap_cells_checked": 200, "clustermap_single_chain": 2, "clustermap_meta": 1}
 SHARDS = {"quick": 6, "thorough": 16}
@@ -52,6 +52,8 @@ def k_regex(ctx, seqs):
     ctx.count("regex_cases")
     if gapped:
         ctx.count("regex_gapped_cases")
+        if seqs and all(any(t[c] == "-" for t in seqs) for c in range(len(seqs[0]))):
+            ctx.count("regex_every_column_gapped")
     ctx.nontriv(["re", seqs])
     ctx.sample("regex" + (":gapped" if gapped else ""), {"seqs": seqs[:6]})
     out = ctx.call(prs.seqs_to_regex, list(seqs), align=False)
@@ -465,6 +467,10 @@ def generate(tier, seed):
     yield "consensus", {"seqs": ["C-SF", "C-SF", "CASF", "C-TF"]}, True
     yield "consensus", {"seqs": ["-A-", "CA-", "-AW", "-C-", "-A-"]}, True
     yield "regex", {"seqs": ["C-SF", "C-SF", "CASF", "C-TF"]}, True
+    # staggered alignments: every column shows a gap in some sequence (and a residue in another)
+    for stag in (["AB-", "-BC", "A-C"], ["-A", "C-"], ["CA-SL", "C-TSL", "-ASSF", "CAS-L", "CASS-"], ["A-", "-C", "AC", "A-"]):
+        yield "regex", {"seqs": stag}, True
+        yield "consensus", {"seqs": stag}, True
     for i in range(500 * TS if thorough else 40):
         L = rng.randint(1, 9)
         n = rng.randint(1, 12)
